@@ -85,7 +85,7 @@ def run(ctx):
                     seen.append(args[0]); return ('null',)
                 return None
             try:
-                res = CE.run(f, [], gmem={'@next_backend_desc': c}, call_hook=hook)
+                res = CE.run(f, [], gmem=dict(registry([])[1], **{'@next_backend_desc': c}), call_hook=hook)
             except Undecidable as e:
                 bad = ('undecided', str(e)); break
             nxt = c + 1 if c < IMAX else -2**31
@@ -107,7 +107,7 @@ def run(ctx):
                 return ('g', '@some_instance', ()) if len(seq) == 1 else ('null',)
             return None
         try:
-            res = CE.run(f, [], gmem={'@next_backend_desc': 10}, call_hook=hook2)
+            res = CE.run(f, [], gmem=dict(registry([])[1], **{'@next_backend_desc': 10}), call_hook=hook2)
             if res['ret'] == 12 and seq == [11, 12]:
                 r.ok('a descriptor held by a live instance is skipped (loop until the probe is NULL)', func=f.name, loc=probes[0].loc)
             else:
@@ -116,6 +116,18 @@ def run(ctx):
         except Undecidable as e:
             r.undecided('live descriptor skipped', loc=probes[0].loc, msg=str(e))
         r.ok('probe present', func=f.name, loc=probes[0].loc, trivial=True)
+    # whatever the registry holds, the allocator has no failing exit: register links the instance before it asks for the descriptor
+    # and only unlocks when the answer is <= 0, so a refusal would leave an instance registered under descriptor 0
+    from ..vflow import possible_consts as _pc14
+    bad_rets = set()
+    for t_ in [i for i in f.insts() if i.op == 'ret' and i.ops]:
+        bad_rets |= {v_ for v_ in _pc14(f, t_.ops[0]) if isinstance(v_, int) and v_ <= 0}
+    if bad_rets:
+        r.fail('allocator never refuses', func=f.name, sig=f'allocator can return {sorted(bad_rets)}', loc=f.mod.src,
+               msg=f'liberasurecode_backend_alloc_desc can return {sorted(bad_rets)}: liberasurecode_backend_instance_register has already linked the instance and '
+                   'only unlocks on a non-positive descriptor, so the failed create leaves an instance that answers on descriptor 0')
+    else:
+        r.ok('the allocator has no constant non-positive return value', func=f.name, loc=f.mod.src, trivial=True)
     r.require_min(3)
 
     # ---------------- R14b (lockset, shared)
@@ -275,6 +287,45 @@ def run(ctx):
                         r.ok(f'{g.name} stores ec_args.{fl[0][1]}', func=g.name, loc=ins.loc, trivial=True)
                     else:
                         r.fail(f'{g.name} stores ec_args.{fl[0][1]}', func=g.name, sig=f'store ec_args.{fl[0][1]}', loc=ins.loc, msg='instance arguments are modified after create')
+    # memory the descriptor points at (encode tables, matrices, scratch areas) is instance state too: outside init / exit nothing is
+    # stored through a pointer loaded from a descriptor field and no callee that writes through its argument receives one
+    from .. import effects as _eff14e
+    E14e = _eff14e.get(P)
+    exits_ = set(cg.slot_functions('exit').values()) | {'@isa_l_exit'}
+    nind = 0
+    for m in P.mods:
+        if re.search(r'jerasure|shss|phazrio|alg_sig', m.src):
+            continue
+        for g in m.functions.values():
+            if g.name in inits or g.name in exits_:
+                continue
+            owned = []
+            for ld in g.insts():
+                if ld.op == 'load' and ld.ty and ld.ty.endswith('*') and '(' not in ld.ty:
+                    root, steps = access_path(P, g, ld.ops[0])
+                    fl = fields_in_path(steps)
+                    rd = g.defs.get(root) if isinstance(root, str) else None
+                    if fl and fl[-1][0] in desc_structs and not (rd is not None and rd.op == 'alloca'):
+                        owned.append((ld, fl[-1]))
+            for ld, fld in owned:
+                D, _ = derived_pointers(g, [ld.res])
+                for ins in g.insts():
+                    w = None
+                    if ins.op == 'store' and ins.ops[1] in D:
+                        w = 'a store'
+                    elif ins.op == 'call' and not (ins.callee or '').startswith('@llvm.dbg'):
+                        for ai, a in enumerate(ins.ops):
+                            if isinstance(a, str) and a in D:
+                                for cal in cg.callees(g, ins) or []:
+                                    if cal in ('@free',):
+                                        continue
+                                    if E14e.writes_through(cal, ai, deep=False):
+                                        w = f'{cal} (writes through argument {ai})'
+                    if w:
+                        nind += 1
+                        r.fail(f'{g.name} writes memory owned by the descriptor ({fld[0]}.{fld[1]})', func=g.name, sig=f'write through {fld[0]}.{fld[1]}', loc=ins.loc,
+                               msg=f'{g.name} writes ({w}) into the memory {fld[0]}.{fld[1]} points at: that memory belongs to the instance and is shared by every call '
+                                   'and thread that uses the descriptor, so later results depend on earlier calls and concurrent calls race')
     ctx.extra['instance_state_stores'] = n
     r.require_min(30, 'stores to instance state')
 
